@@ -97,7 +97,6 @@ def run_case(ctx, n, edges, fl, red, names, history="single"):
     if red is not None and not (late and red[0] in late):
         ctx.add_page("Template:R", 10, redirect_to="Template:" + names[red[0]])
     ctx.db_conn.commit()
-    type(ctx).get_page.cache_clear()
 
     def clf(w, page):
         t = page.title.removeprefix("Template:")
@@ -125,7 +124,6 @@ def run_case(ctx, n, edges, fl, red, names, history="single"):
             if red is not None and red[0] in late:
                 ctx.add_page("Template:R", 10, redirect_to="Template:" + names[red[0]])
             ctx.db_conn.commit()
-            type(ctx).get_page.cache_clear()
         ctx.analyze_templates(clf)
     except Timeout:
         _TIMEOUTS[0] += 1
